@@ -20,6 +20,7 @@ import (
 	"encoding/binary"
 	"errors"
 	"fmt"
+	"io"
 	"math/rand"
 	"net"
 	"os"
@@ -171,9 +172,11 @@ func response(q muxReq, id int32, errCode int16) []byte {
 		m.Write(be32(uint32(len(val))))
 		m.Write(val)
 		var set bytes.Buffer
-		set.Write(be64(uint64(q.off)))
-		set.Write(be32(uint32(m.Len())))
-		set.Write(m.Bytes())
+		for k := int64(0); k < 4; k++ {
+			set.Write(be64(uint64(q.off + k)))
+			set.Write(be32(uint32(m.Len())))
+			set.Write(m.Bytes())
+		}
 		var body bytes.Buffer
 		body.Write(be32(uint32(id)))
 		body.Write(be32(0)) // throttle
@@ -405,17 +408,34 @@ func connScenario(r *rand.Rand, thorough bool) {
 					}
 				case "batch":
 					bt := conn.ReadBatchWith(kafka.ReadBatchConfig{MinBytes: 1, MaxBytes: 1 << 20, MaxWait: time.Duration(tag) * time.Millisecond})
+					o0, h0 := bt.Offset(), bt.HighWaterMark()
 					msg, err := bt.ReadMessage()
+					if os.Getenv("C06_DEBUG") != "" && err != nil {
+						fmt.Fprintf(os.Stderr, "batch off=%d hwm=%d err=%v\n", o0, h0, err)
+					}
 					time.Sleep(hold) // the Batch keeps the read lock
 					cerr := bt.Close()
 					switch {
+					case errors.Is(err, io.EOF) && cerr == nil:
+						// the batch ended without yielding a message (the reader skipped them): the call
+						// completed but returned no payload to compare
+						res = "ok:?"
 					case err != nil:
+						if os.Getenv("C06_DEBUG") != "" {
+							fmt.Fprintf(os.Stderr, "batch tag %d: ReadMessage: %v (close: %v)\n", tag, err, cerr)
+						}
 						res = errRes(err)
 					case cerr != nil:
 						res = errRes(cerr)
 					default:
+						if os.Getenv("C06_DEBUG") != "" {
+							fmt.Fprintf(os.Stderr, "batch ok\n")
+						}
 						res = "ok:" + string(msg.Value)
 					}
+				}
+				if os.Getenv("C06_DEBUG") != "" && !strings.HasPrefix(res, "ok") {
+					fmt.Fprintf(os.Stderr, "op %s tag %d -> %s\n", op, tag, res)
 				}
 				mu.Lock()
 				results = append(results, callRes{tag, res})
@@ -497,12 +517,15 @@ func connScenario(r *rand.Rand, thorough bool) {
 		es = append(es, item)
 	}
 	sort.Slice(results, func(i, j int) bool { return results[i].tag < results[j].tag })
-	var rs, tags []string
+	var rs, tags, opaque []string
 	for _, c := range results {
 		rs = append(rs, fmt.Sprintf("%d:%s", c.tag, c.res))
 		tags = append(tags, strconv.Itoa(c.tag))
+		if c.res == "ok:?" {
+			opaque = append(opaque, strconv.Itoa(c.tag))
+		}
 	}
-	fmt.Fprintf(out, "mux %s %s %s\t%s\n", joinOr(stream), joinOr(es), joinOr(tags), joinOr(rs))
+	fmt.Fprintf(out, "mux %s %s %s %s\t%s\n", joinOr(stream), joinOr(es), joinOr(tags), joinOr(opaque), joinOr(rs))
 }
 
 func joinOr(l []string) string {
